@@ -91,7 +91,7 @@ func init() {
 				}
 			}()
 			ctx := context.Background()
-			scenario := []string{"svc", "cli", "both"}[i%3]
+			scenario := []string{"svc", "cli", "both", "cliwf"}[i%4]
 			coalesced := g.Chance(2, 3)
 			n := []int{1, 7, 100, 4000, 4096, 5000, 20000}[g.Intn(7)]
 			sizes := [][]int{{1}, {16}, {512}, {4096}, {32768}, {3, 4096, 1, 70000}, {4095, 4097}}[g.Intn(7)]
@@ -171,7 +171,7 @@ func init() {
 				case <-done:
 				case <-time.After(5 * time.Second):
 				}
-			case "cli":
+			case "cli", "cliwf":
 				toSvc = nil
 				toCli = g.rawPayload(n)
 				ln, err := net.Listen("unix", fmt.Sprintf("@verif-upc-%d-%d-%d", e.seed, i, time.Now().UnixNano()%1000000))
@@ -200,6 +200,11 @@ func init() {
 						time.Sleep(2 * time.Millisecond)
 						s.Write(toCli)
 					}
+					if scenario == "cliwf" {
+						// the peer hangs up right after sending: what it sent is still to be delivered, whatever
+						// happens to the client's own writes in the meantime
+						return
+					}
 					io.Copy(io.Discard, s)
 				}()
 				c, err := varlink.NewConnection(ctx, "unix:"+ln.Addr().String())
@@ -211,6 +216,18 @@ func init() {
 					var out json.RawMessage
 					_, rw, err := receive(ctx, &out)
 					if err == nil {
+						if scenario == "cliwf" {
+							// write until the transport reports that the peer is gone
+							for k := 0; k < 200; k++ {
+								wctx, wc := context.WithTimeout(ctx, time.Second)
+								_, werr := rw.Write(wctx, []byte("anybody there?"))
+								wc()
+								if werr != nil {
+									break
+								}
+								time.Sleep(time.Millisecond)
+							}
+						}
 						rctx, cancel := context.WithTimeout(ctx, 3*time.Second)
 						gotCli = readN(rctx, rw, len(toCli), sizes)
 						cancel()
